@@ -233,5 +233,17 @@ def gridsAt (ats : List (R → Option (Coor R))) (useNull : Bool) : Option (Coor
     | some d => some d
     | none => if useNull then some ⟨n 0, n 0, n 0, n 0⟩ else none
 
+/-- a grid as the operators see it (`dyn Grid`): its band count and its look-up function -/
+structure GridObj (R : Type) where
+  bands : Nat
+  look : R → R → R → Option (Coor R)     -- longitude, latitude, margin
+
+/-- the grids a context serves, by name -/
+abbrev GridEnv (R : Type) := Str → Option (GridObj R)
+
+/-- `grids_at(grids, coord, use_null_grid)` over grid objects -/
+def gridsAtObjs (gs : List (GridObj R)) (lon lat : R) (useNull : Bool) : Option (Coor R) :=
+  gridsAt (gs.map fun g => fun m => g.look lon lat m) useNull
+
 end Grid
 end Geodesy
